@@ -1,4 +1,6 @@
 import PqModel.AsyncTrace
+import PqModel.AsyncFair
+import PqModel.PoolProto
 import PqModel.CasPublish
 import PqModel.Commit
 
@@ -25,7 +27,7 @@ open PqModel.Async
     the wrapped reader after the same completed calls (`g.spec` = position established by the
     latest SeekToRow plus the pages delivered since; `spec_is_history` below says that is what the
     ghost is) — or a fatal error of the wrapped reader raised by a speculative operation
-    (prefetch, or a seek that was superseded), which is sticky by design (page.go:287-289). -/
+    (prefetch, or a seek that was superseded), which is sticky by design (page.go:292-294). -/
 theorem async_seek_consistent (U : Under) {g g' : G} {r : Res} {v : Nat}
     (hr : Reachable U g) (hs : Step U g (.deliver r v) g') :
     v = g.cver ∧
@@ -96,6 +98,51 @@ theorem async_read_can_complete (U : Under) {g : G} (hr : Reachable U g) (hc : g
     ∃ es r v g', Path U g (es ++ [.deliver r v]) g' ∧ es.length ≤ 7 ∧ ∀ e ∈ es, quiet e = true :=
   read_can_complete hr hc
 
+/-- Bounded form of termination: while `ReadPage` has not returned, the number of steps taken
+    (by either goroutine) is at most `10 + 4·d`, `d` = number of stale pages dropped so far, i.e. the
+    number of times the producer's `select` sent on `read` although its `seek` case was ready. -/
+theorem async_read_wait_bounded (U : Under) {g g' : G} {es : List Ev} (hr : Reachable U g)
+    (hc : g.cpc = .reading) (hp : Path U g es g') (hnd : ∀ e ∈ es, isDeliver e = false) :
+    es.length ≤ 10 + 4 * drops es := by
+  have h := (wait_bounded hr (Or.inl hc) hp hnd).1
+  have := phi_le (U := U) (g := g)
+  omega
+
+/-- Termination under fairness of the `select`: in every infinite run that starts in a reachable
+    state where the consumer waits in `ReadPage`, if stale pages are dropped only finitely often —
+    the select does not starve its ready `seek` case forever; Go's select chooses uniformly at random
+    among ready cases, so this holds with probability 1 — then `ReadPage` returns, within
+    `11 + 4·N` steps (`N` = index after which no drop happens). A run of the transition system takes
+    a step at every index, so the scheduler is assumed not to stop both goroutines (`async_no_deadlock`
+    says a step is always available). -/
+theorem async_read_terminates_fair (U : Under) (ρ : Run U) (hr : Reachable U (ρ.st 0))
+    (hc : (ρ.st 0).cpc = .reading) (N : Nat) (hN : ∀ n, N ≤ n → isDrop (ρ.ev n) = false) :
+    ∃ n, n < 11 + 4 * N ∧ isDeliver (ρ.ev n) = true := by
+  apply Classical.byContradiction
+  intro hno
+  have hnd : ∀ e ∈ ρ.prefixEvents (11 + 4 * N), isDeliver e = false := by
+    intro e he
+    obtain ⟨m, hm, rfl⟩ := ρ.prefix_mem _ e he
+    cases hd : isDeliver (ρ.ev m)
+    · rfl
+    · exact absurd ⟨m, hm, hd⟩ hno
+  have hb := async_read_wait_bounded U hr hc (ρ.prefix_path _) hnd
+  have hl := ρ.prefix_length (11 + 4 * N)
+  have hd := ρ.prefix_drops N hN (11 + 4 * N)
+  omega
+
+/-- The exact gap: WEAK fairness is not enough. With a SeekToRow waiting in the channel, the
+    consumer in `ReadPage` and the producer between two selects, there are delivery-free paths of
+    every length `3n` along which the `seek` case is taken never, although it is ready at each of
+    the `n` selects; it is not *continuously* enabled (it needs the producer to be in the select),
+    so only strong fairness of the select (or its randomness) ends the wait. -/
+theorem async_weak_fairness_insufficient (U : Under) (n : Nat) {g : G} {k v : Nat}
+    (h1 : g.cpc = .reading) (h2 : g.ppc = .top) (h3 : g.seekCh = some (k, v)) (h4 : g.pver ≠ g.cver)
+    (h5 : g.loc.row = none) :
+    ∃ es g', Path U g es g' ∧ es.length = 3 * n ∧ (∀ e ∈ es, isDeliver e = false) ∧ drops es = n ∧
+      g'.cpc = .reading ∧ g'.ppc = .top ∧ g'.seekCh = some (k, v) :=
+  stale_loop n g k v h1 h2 h3 h4 h5
+
 /-- The trace validator run by `pqdriver` (`async.validate`) accepts a log iff it is a path of this
     transition system. -/
 theorem async_validate_iff_path (U : Under) (es : List Ev) (g : G) :
@@ -162,7 +209,103 @@ example : ∃ g, Reachable U0 g ∧ g.cpc = .reading ∧ g.seekCh = some (4, 1) 
     (p := fun g => decide (g.cpc = .reading ∧ g.seekCh = some (4, 1))) (by decide)
   exact ⟨g, ⟨_, hp⟩, by simpa using hq⟩
 
+/-- a reachable state satisfying the hypotheses of `async_weak_fairness_insufficient` (and of
+    `async_read_wait_bounded`) -/
+example : ∃ g, Reachable U0 g ∧ g.cpc = .reading ∧ g.ppc = .top ∧ g.seekCh = some (4, 1) ∧
+    g.pver ≠ g.cver ∧ g.loc.row = none := by
+  obtain ⟨g, hp, hq⟩ := check_path (U := U0)
+    (es := [.readBegin, .initPass, .pollEmpty, .bodyOffer (.page 0) 0, .handoff, .deliver (.page 0) 0,
+            .seekPoll false, .seekSend 4 1, .readBegin])
+    (p := fun g => decide (g.cpc = .reading ∧ g.ppc = .top ∧ g.seekCh = some (4, 1) ∧ g.pver ≠ g.cver ∧
+      g.loc.row = none)) (by decide)
+  exact ⟨g, ⟨_, hp⟩, by simpa using hq⟩
+
 end async
+
+/-! ## pooled objects: get → use → put -/
+section pool
+open PqModel.PoolProto
+
+/-- For any number of goroutines, each running a program that respects the discipline "nothing after
+    the put" (`disc`), in every reachable state of every interleaving (with `sync.Pool` handing out
+    ANY pooled object or none, and the GC dropping pooled objects): an object may be touched by at
+    most one goroutine (`Exclusive`: between its get and its put it has one owner), an object inside
+    the pool is touched by nobody (`PoolQuiet`), and the put is the owner's last action on the
+    object (`PutLast`). -/
+theorem pool_exclusive (progs : List (List Op)) (hd : ∀ p ∈ progs, disc p = true) {s : St}
+    (hr : Reach progs s) : Exclusive s ∧ PoolQuiet s ∧ PutLast s :=
+  pinv_exclusive (pinv_reach hd hr)
+
+/-- the three call sites respect the discipline, for every number of reads / columns and on the
+    error paths (MIRROR programs, see PoolProto.lean) -/
+theorem pool_sites_disciplined (n : Nat) (ok : Bool) :
+    disc encodeProg = true ∧ disc (decodeProg n ok) = true ∧ disc (reconstructProg n) = true :=
+  ⟨encodeProg_disc, decodeProg_disc n ok, reconstructProg_disc n⟩
+
+/-- hence: any mix of concurrent Encode / Decode / Reconstruct calls keeps every pooled object
+    exclusive -/
+example (s : St) (hr : Reach [encodeProg, decodeProg 3 true, decodeProg 2 false, reconstructProg 4, encodeProg] s) :
+    Exclusive s ∧ PoolQuiet s ∧ PutLast s :=
+  pool_exclusive _ (by
+    intro p hp
+    simp only [List.mem_cons, List.mem_nil_iff, or_false] at hp
+    rcases hp with rfl | rfl | rfl | rfl | rfl
+    · exact encodeProg_disc
+    · exact decodeProg_disc _ _
+    · exact decodeProg_disc _ _
+    · exact reconstructProg_disc _
+    · exact encodeProg_disc) hr
+
+/-- NEGATION for the first slip (`Encode` puts the writer back before its deferred cleanup has run):
+    two goroutines; goroutine 0 allocates writer 0, touches it four times and puts it back with two
+    touches still to come (an object in the pool that its former owner will touch: `¬ PoolQuiet`,
+    `¬ PutLast`); goroutine 1 then gets writer 0 from the pool: both may touch it (`¬ Exclusive`). -/
+theorem pool_slip_encode_not_exclusive :
+    (∃ s, Reach [encodeSlip, encodeSlip] s ∧ ¬ PoolQuiet s ∧ ¬ PutLast s) ∧
+    (∃ s, Reach [encodeSlip, encodeSlip] s ∧ ¬ Exclusive s) := by
+  have s0 : Reach [encodeSlip, encodeSlip] (PoolProto.init [encodeSlip, encodeSlip]) := .init
+  have s1 := s0.step (.getNew (i := 0) rfl)
+  have s2 := s1.step (.use (i := 0) rfl)
+  have s3 := s2.step (.use (i := 0) rfl)
+  have s4 := s3.step (.use (i := 0) rfl)
+  have s5 := s4.step (.use (i := 0) rfl)
+  have s6 : Reach [encodeSlip, encodeSlip]
+      { pool := [0], fresh := 1, gs := [.released 0 [.use, .use], .start encodeSlip] } :=
+    s5.step (.put (i := 0) rfl)
+  have s7 : Reach [encodeSlip, encodeSlip]
+      { pool := [], fresh := 1, gs := [.released 0 [.use, .use], .holding 0 encodeSlip] } :=
+    s6.step (.getPooled (i := 1) (o := 0) rfl (by decide))
+  refine ⟨⟨_, s6, ?_, ?_⟩, ⟨_, s7, ?_⟩⟩
+  · intro h; exact h 0 (.released 0 [.use, .use]) 0 rfl (by decide) (by decide)
+  · intro h; exact absurd (h 0 0 [.use, .use] rfl) (by decide)
+  · intro h
+    exact h 0 1 (.released 0 [.use, .use]) (.holding 0 encodeSlip) 0 (by decide) rfl rfl (by decide) (by decide)
+
+/-- NEGATION for the second slip (`Reconstruct` releases the column buffer before `reconstruct`
+    reads it), one column write: goroutine 0 puts buffer 0 back with the read still to come,
+    goroutine 1 acquires buffer 0 and is about to overwrite it. -/
+theorem pool_slip_reconstruct_not_exclusive :
+    ∃ s, Reach [reconstructSlip 1, reconstructSlip 1] s ∧ ¬ Exclusive s ∧ ¬ PutLast s := by
+  have s0 : Reach [reconstructSlip 1, reconstructSlip 1] (PoolProto.init [reconstructSlip 1, reconstructSlip 1]) := .init
+  have s1 := s0.step (.getNew (i := 0) rfl)
+  have s2 := s1.step (.use (i := 0) rfl)
+  have s3 := s2.step (.use (i := 0) rfl)
+  have s4 := s3.step (.use (i := 0) rfl)
+  have s5 := s4.step (.put (i := 0) rfl)
+  have s6 : Reach [reconstructSlip 1, reconstructSlip 1]
+      { pool := [], fresh := 1, gs := [.released 0 [.use], .holding 0 (reconstructSlip 1)] } :=
+    s5.step (.getPooled (i := 1) (o := 0) rfl (by decide))
+  refine ⟨_, s6, ?_, ?_⟩
+  · intro h
+    exact h 0 1 (.released 0 [.use]) (.holding 0 (reconstructSlip 1)) 0 (by decide) rfl rfl (by decide) (by decide)
+  · intro h; exact absurd (h 0 0 [.use] rfl) (by decide)
+
+/-- the slips are exactly what `disc` rejects -/
+example : disc encodeSlip = false ∧ ∀ n, disc (reconstructSlip n) = false := by
+  refine ⟨by decide, fun n => ?_⟩
+  simp [reconstructSlip, disc, disc_replicate_append]
+
+end pool
 
 /-! ## lazily published pointers -/
 section cas
